@@ -665,4 +665,49 @@ example : ∀ g ∈ [affineOp 2 exA (fun _ => (0 : ℚ))], IsLinearOp g := by
 
 end
 
+section
+variable {K : Type} [BEq K] [LawfulBEq K]
+
+/-- the driver's time-dependent objects in general: for pairwise distinct times, `sampled` of the
+zipped measurements returns at the `k`-th time the `k`-th measurement (so every timed answer of
+`c10.rate_t` / `c10.text_t` / `c10.rhs_t` is the frozen-time definition at the operators measured
+at that time) -/
+theorem sampled_zip_getElem {α : Type} (times : List K) (xs : List α) (d : α)
+    (hnd : times.Nodup) (k : Nat) (hk : k < times.length) (hx : k < xs.length) :
+    sampled (times.zip xs) d times[k] = xs[k] := by
+  induction times generalizing xs k with
+  | nil => simp at hk
+  | cons t ts ih =>
+    cases xs with
+    | nil => simp at hx
+    | cons x xs =>
+      cases k with
+      | zero => simp [sampled]
+      | succ k =>
+        have hne : ts[k]'(by simpa using hk) ≠ t := by
+          intro h
+          have : t ∈ ts := h ▸ List.getElem_mem _
+          exact (List.nodup_cons.1 hnd).1 this
+        have hb : (ts[k]'(by simpa using hk) == t) = false := by simpa using hne
+        have := ih xs (List.nodup_cons.1 hnd).2 k (by simpa using hk) (by simpa using hx)
+        simp only [sampled] at this ⊢
+        simpa [List.lookup, hb] using this
+
+end
+
+section
+variable {ι K : Type} [Field K] [BEq K] [LawfulBEq K]
+
+/-- what `c10.rate_t` returns for the diffusion class at the `k`-th time -/
+theorem diffusionRateAt_sampled (D : K) (times : List K) (laps : List (Op ι K)) (d : Op ι K)
+    (hnd : times.Nodup) (k : Nat) (hk : k < times.length) (hx : k < laps.length) (c : St ι K) :
+    diffusionRateAt D (sampled (times.zip laps) d) times[k] c = diffusionRate D laps[k] c := by
+  unfold diffusionRateAt
+  rw [sampled_zip_getElem times laps d hnd k hk hx]
+
+end
+
+example : sampled ([(1 : ℚ), 2].zip ["a", "b"]) "-" 2 = "b" :=
+  sampled_zip_getElem [(1 : ℚ), 2] ["a", "b"] "-" (by decide) 1 (by decide) (by decide)
+
 end PdeVerif.PDEs
